@@ -10,6 +10,7 @@ use parking_lot::RwLock;
 
 use crate::desc::{is_valid_label_name, is_valid_metric_name};
 use crate::errors::{Error, Result};
+use crate::histogram::BUCKET_LABEL;
 use crate::metrics::Collector;
 use crate::proto;
 
@@ -283,6 +284,14 @@ impl Registry {
                     return Err(Error::Msg(format!(
                         "'{}' is not a valid label name",
                         label_name
+                    )));
+                }
+                // A common label is appended to every sample, including the
+                // buckets of histograms, which carry the reserved label themselves.
+                if label_name == BUCKET_LABEL {
+                    return Err(Error::Msg(format!(
+                        "'{}' is a reserved label name",
+                        BUCKET_LABEL
                     )));
                 }
             }
